@@ -20,6 +20,7 @@ const N_ACTOR: u64 = 2;
 const N_ACP: u64 = 3;
 const N_VICTIM: u64 = 4;
 const N_RECYCLED: u64 = 5;
+const N_PLAIN: u64 = 6; // a user-made entry without any unique attribute (no name / spn)
 const N_FREE: u64 = 9; // a dynamic uuid nobody uses
 
 fn chunks(u: Uuid) -> J {
@@ -161,6 +162,12 @@ pub fn run(o: &Opts) -> i32 {
                 acp,
                 person("kv_victim", Some(uuid_e(N_VICTIM))),
                 person("kv_gone", Some(uuid_e(N_RECYCLED))),
+                ent(vec![
+                    (Attribute::Class, EntryClass::Object.to_value()),
+                    (Attribute::Class, EntryClass::ExtensibleObject.to_value()),
+                    (Attribute::Uuid, Value::Uuid(uuid_e(N_PLAIN))),
+                    (Attribute::DisplayName, Value::new_utf8s("no unique attribute")),
+                ]),
             ])
             .expect("base create");
             w.commit().expect("commit");
@@ -180,14 +187,14 @@ pub fn run(o: &Opts) -> i32 {
         let mut reqs: Vec<(Req, Box<dyn Fn(&mut QueryServerWriteTransaction<'_>, &Identity) -> Result<(), OperationError>>)> = Vec::new();
         let targets = |t: &str| -> Vec<(String, Uuid)> {
             if t == "user" {
-                vec![("victim".into(), uuid_e(N_VICTIM))]
+                vec![("victim".into(), uuid_e(N_VICTIM)), ("plain".into(), uuid_e(N_PLAIN))]
             } else {
                 vec![("idm_admins".into(), UUID_IDM_ADMINS), ("anonymous".into(), UUID_ANONYMOUS), ("domain_info".into(), UUID_DOMAIN_INFO)]
             }
         };
         for op in ["modify", "batch"] {
-            for kind in ["present", "removed", "purged", "set", "assert"] {
-                let vals: Vec<&str> = if kind == "purged" { vec!["none"] } else if kind == "present" { vec!["same", "dyn", "reserved", "illtyped"] } else { vec!["same", "dyn", "reserved"] };
+            for kind in ["present", "removed", "purged", "set", "assert", "swap", "purgeswap"] {
+                let vals: Vec<&str> = if kind == "swap" || kind == "purgeswap" { vec!["dyn", "reserved"] } else if kind == "purged" { vec!["none"] } else if kind == "present" { vec!["same", "dyn", "reserved", "illtyped"] } else { vec!["same", "dyn", "reserved"] };
                 for tgt in ["user", "builtin"] {
                     for val in vals.iter() {
                         for pos in ["only", "first", "last"] {
@@ -196,11 +203,22 @@ pub fn run(o: &Opts) -> i32 {
                                 let abs = json!({"op":op,"kind":kind,"attr":"uuid","target":tgt,"val":val,"pos":pos});
                                 let (op2, kind2, val2, pos2) = (op.clone(), kind.clone(), val.clone(), pos.clone());
                                 reqs.push((Req { abs, detail: tname }, Box::new(move |w, ident| {
-                                    let um = uuid_mod(&kind2, &val2, tu);
+                                    let mut ums = match kind2.as_str() {
+                                        // replace the uuid value by two modifies in one request
+                                        "swap" => vec![uuid_mod("removed", "same", tu), uuid_mod("present", &val2, tu)],
+                                        "purgeswap" => vec![uuid_mod("purged", "none", tu), uuid_mod("present", &val2, tu)],
+                                        _ => vec![uuid_mod(&kind2, &val2, tu)],
+                                    };
                                     let ml = match pos2.as_str() {
-                                        "first" => vec![um, other_mod("present")],
-                                        "last" => vec![other_mod("present"), um],
-                                        _ => vec![um],
+                                        "first" => {
+                                            ums.push(other_mod("present"));
+                                            ums
+                                        }
+                                        "last" => {
+                                            ums.insert(0, other_mod("present"));
+                                            ums
+                                        }
+                                        _ => ums,
                                     };
                                     apply_mod(w, ident, &op2, tu, ml)
                                 })));
